@@ -24,7 +24,7 @@ EXPLANATION = (
     "terminal-property change."
     " Added after seed round 3: _last_row's back-step is the width of the text written last (calc_width of the Z text); `self._resized` is tested again between the walk over canvas.content() and the write / screen_buf store; (9) ACCUM - the row counter of draw_screen advances for skipped rows too; (10) KIND - in the HTML back-end everything added to / compared with the cursor column is a calc_width() result, never a character count."
     " Round 4: the 'same canvas object as last time' shortcut of draw_screen reads screen_buf (which clear(), resize and stop reset); (11) LOOPFRESH on per-row state of the two draw_screen implementations."
-    " Round-4 triage: (12) the erase-to-end-of-line shortcut is disabled for every style flag _attrspec_to_escape() emits that is drawn on blank cells (all but bold / italics / blink). Round 5: (13) every value given to the rendition model of draw_screen is sent on every path to its next use; (14) _last_row reads row[-2] only under a test of len(row)."
+    " Round-4 triage: (12) the erase-to-end-of-line shortcut is disabled for every style flag _attrspec_to_escape() emits that is drawn on blank cells (all but bold / italics / blink). Round 5: (13) every value given to the rendition model of draw_screen is sent on every path to its next use; (14) _last_row reads row[-2] only under a test of len(row); (15) every draw_screen reads all three components of a run (the HTML back-end used to drop the charset flag); (3, extended) `_resized` is tested again between the write loop and the screen_buf record."
 )
 NOT_DECIDED = "The effect of the escape stream on a terminal across frame histories, the erase-to-end-of-line and insert-mode equivalences, no-scroll - these need a terminal interpreter, i.e. execution."
 ASSUMPTIONS = []
@@ -524,6 +524,28 @@ def rule_last_row_neighbour(ctx: Ctx) -> RuleResult:
     return rr
 
 
+def rule_cell_components(ctx: Ctx) -> RuleResult:
+    """A canvas row is a list of (attribute, charset flag, text) runs.  The charset flag says how the bytes are to be
+    read: with "0" they are the alias letters of DEC line-drawing characters.  A back-end that drops the flag while
+    it still emits the text shows `q` for `─`.  Every draw_screen() implementation reads all three components of
+    the runs it iterates."""
+    p = ctx.p
+    rr = RuleResult("TRIPLE", "C04.15", "every draw_screen implementation reads the attribute, the charset flag and the text of each run", floor=2)
+    for q in (f"{RAW}.Screen.draw_screen", f"{HTML}.HtmlGenerator.draw_screen"):
+        fi = p.func(q)
+        loops = [n for n in fi.own_nodes() if isinstance(n, ast.For) and isinstance(n.target, ast.Tuple) and len(n.target.elts) == 3 and all(isinstance(e, ast.Name) for e in n.target.elts) and isinstance(n.iter, ast.Name)]
+        if not loops:
+            raise AnalysisError(f"{q}: the loop over the runs of a row (`for a, cs, run in row`) was not found")
+        for lp in loops:
+            names = [e.id for e in lp.target.elts]
+            read = {x.id for b in lp.body for x in ast.walk(b) if isinstance(x, ast.Name) and isinstance(x.ctx, ast.Load)}
+            missing = [("attribute", "charset flag", "text")[i] for i, nm in enumerate(names) if nm not in read]
+            rr.inst(f"{short(fi)}: for {', '.join(names)} in {norm(lp.iter, 20)}", True, {"function": short(fi), "components": names, "unread": missing})
+            if missing:
+                rr.add(finding("TRIPLE", fi, lp, f"`for {', '.join(names)} in {norm(lp.iter, 20)}` never reads the {' / '.join(missing)} of the runs it draws: a run flagged \"0\" (DEC special characters, e.g. line drawing in a non-UTF-8 encoding) is emitted as its alias letters", construct=f"run component not read: {' / '.join(missing)}"))
+    return rr
+
+
 def run(ctx: Ctx):
     r6 = c17.rule_palette_cache(ctx, "C04.6")
     r7 = c17.rule_palette_total(ctx, "C04.7")
@@ -531,12 +553,13 @@ def run(ctx: Ctx):
     r8.clause = "C04.8"
     r9 = accum.run_accum(ctx.p, "C04.9", "C04", floor=1)
     r11 = loopfresh.run_loopfresh(ctx.p, "C04.11", "C04", floor=3)
-    return [rule_triple(ctx), rule_last_row_triple(ctx), rule_cursor(ctx), rule_repaint(ctx), rule_charset_first(ctx), rule_html(ctx), rule_html_cursor_columns(ctx), r6, r7, r8, r9, r11, rule_erase_shortcut(ctx), rule_rendition_model(ctx), rule_last_row_neighbour(ctx)]
+    return [rule_triple(ctx), rule_last_row_triple(ctx), rule_cursor(ctx), rule_repaint(ctx), rule_charset_first(ctx), rule_html(ctx), rule_html_cursor_columns(ctx), r6, r7, r8, r9, r11, rule_erase_shortcut(ctx), rule_rendition_model(ctx), rule_last_row_neighbour(ctx), rule_cell_components(ctx)]
 
 
 _RW = "urwid/display/_raw_display_base.py"
 _HT = "urwid/display/html_fragment.py"
 MUTANTS = [
+    Mut("html-ignores-charset-flag", _HT, "HtmlGenerator.draw_screen", "            for a, cs, run in row:\n                t_run = run.decode(get_encoding())\n                if cs == \"0\":\n                    t_run = t_run.translate(_dec_special_table)\n", "            for a, _cs, run in row:\n                t_run = run.decode(get_encoding())\n", "TRIPLE|display.html_fragment.HtmlGenerator.draw_screen"),
     Mut("record-overwrites-resize-reset", _RW, "urwid.display._raw_display_base.Screen.draw_screen", "        if self._resized:\n            # the size changed while writing: what the terminal shows now is unknown, repaint completely next time\n            return\n\n        self.screen_buf = sb", "        self.screen_buf = sb", "INV|display._raw_display_base.Screen.draw_screen|no _resized test between the write and the screen_buf record"),
     Mut("last-row-single-character", _RW, "urwid.display._raw_display_base.Screen._last_row", "            if len(row) < 2:\n                # a single character fills the whole row: there is no Y to slide in\n                return row, 0, None\n", "", "GUARD|display._raw_display_base.Screen._last_row"),
     Mut("initial-rendition-only-on-full-repaint", _RW, "urwid.display._raw_display_base.Screen.draw_screen", "        output: list[str] = [escape.HIDE_CURSOR, attr_to_escape(last_attributes)]\n", "        output: list[str] = [escape.HIDE_CURSOR]\n        if not self.screen_buf:\n            output.append(attr_to_escape(last_attributes))\n", "PAIR|display._raw_display_base.Screen.draw_screen|rendition model"),
